@@ -51,12 +51,33 @@ def run_C12(rep, g):
         rules.check_deserialize(rep, g)
 
 
+def run_C05(rep, g):
+    rules.check_no_bypass(rep, g)
+    # every safe entry point that builds T runs the guards: the constructor itself (R-GUARD) ...
+    rules.check_ctor(rep, g)
+    # ... and every conversion has the constructor's outcome table
+    rules.check_conversions(rep, g)
+    rules.check_from_str(rep, g)
+    rules.check_deserialize(rep, g)
+    rules.check_derived_cmp(rep, g)
+
+
+def crate_C05(rep, F, gens):
+    return rules.check_ctor_sites(rep, F, gens)
+
+
+CRATE_PROPS = {'C05': crate_C05, 'C04': crate_C05, 'C12': crate_C05}
+
+from . import witcat
+W_PROPS = {'C05': witcat.c05_witnesses, 'C07': witcat.c07_witnesses, 'C12': witcat.c12_witnesses}
+
 E_PROPS = {
     'C01': run_C01,
     'C03': run_C03,
     'C04': run_C04,
     'C06': run_C06,
     'C10': run_C10,
+    'C05': run_C05,
     'C07': run_C07,
     'C12': run_C12,
     'C13': run_C13,
